@@ -348,6 +348,8 @@ def run(rep: Report, tier: str) -> None:
     rep.floor("documented Time_Period examples", nex, 10)
     rep.analysed = {"period_limits": limits, "docs_time_formats": doc_fmts, "docs_time_period_examples": nex}
     integer_csv_guard(P, rep, "R19.4")
+    rep.rule("R19.6", "post-load validation queries examine every row: no LIMIT inside a derived table that the outer query filters")
+    limit_before_filter(P, rep, "R19.6")
     # ---- R19.5 one period, one key: every accepted spelling is normalised to the canonical text BEFORE the duplicate check compares texts ----
     rep.rule("R19.5", "every accepted spelling of a Time_Period is normalised to the one canonical text (two spellings of one period must meet in the duplicate-key check)")
     from sa.checks.c21 import spelling_grid
@@ -403,3 +405,36 @@ def loaded_table_checks_on_every_path(P: Program, rep: Report, rule: str) -> Non
                             f"run(): _validate_loaded_table can return without the {nm} (other than through the documented skip flag), while validate_dataset always performs it: "
                             f"the two disagree on such inputs", p))
 
+
+
+def limit_before_filter(P: Program, rep: Report, rule: str) -> None:
+    """A validation query must look at EVERY stored row.  `LIMIT k` may end a query whose rows are all witnesses (`... WHERE bad LIMIT 1`:
+    any one will do); a LIMIT inside a derived table whose result the outer query goes on to filter or aggregate restricts the check to
+    the first k rows in physical order: a malformed value in a later row is not seen."""
+    n = 0
+    for sk in sqlx.iter_skeletons(P):
+        if sk.func is None or not sk.func.module.name.startswith("vtlengine.duckdb_transpiler.io"):
+            continue
+        toks = sqlx.tokenize(sk.text)
+        depth = 0
+        depths = []
+        for t in toks:
+            if t.text == "(":
+                depth += 1
+            depths.append(depth)
+            if t.text == ")":
+                depth -= 1
+        for i, t in enumerate(toks):
+            if t.up != "LIMIT" or depths[i] == 0:
+                continue
+            n += 1
+            d = depths[i]
+            j = i
+            while j < len(toks) and not (toks[j].text == ")" and depths[j] == d):
+                j += 1
+            outer = [toks[k].up for k in range(j + 1, len(toks)) if depths[k] == d - 1]
+            if any(x in ("WHERE", "HAVING", "GROUP") for x in outer):
+                rep.add(Finding(rule, f"{rule}/limit-before-filter/{sk.where}", sk.module.rel, sk.line, sk.where,
+                                f"`{' '.join(sk.text.split())[:130]}`: the LIMIT cuts the derived table to its first row(s) BEFORE the outer query filters it, so only the first stored "
+                                f"row(s) are examined: a malformed value further down the table passes run() while validate_dataset() (which checks every value) rejects it"))
+    rep.instance(rule, "nested-LIMIT-sites", nontrivial=False, sample={"LIMIT inside a derived table": n})
